@@ -8,6 +8,7 @@ import shutil
 import extract_conv
 import extract_semtok
 import extract_vfs
+import extract_lmap
 import weave
 from common import VERIF, REPO, scratch, Undecided
 from rustcut import AnchorLost
@@ -46,6 +47,20 @@ UNITS['vfs'] = {
          'old': "                buf += &text[usize::from(del_range.end())..];", 'new': "                buf += &text[usize::from(del_range.start())..];"},
         {'name': 'verus: a range ending past the text is not rejected', 'file': 'crates/glas/src/vfs.rs',
          'old': '                    del_range.end() <= TextSize::of(text),', 'new': '                    del_range.start() <= TextSize::of(text),'},
+    ],
+}
+UNITS['lmap'] = {
+    'extract': extract_lmap, 'spec': 'contracts/lmap.spec', 'prelude': 'contracts/lmap_prelude.rs',
+    # the representation invariant together with the preconditions of the four functions must be satisfiable, with a line
+    # that has a recorded multi-byte character (Verus has to REJECT this)
+    'reach': ('proof fn reach_probe(lm: &LineMap, pos: int, line: int, col: int)\n    requires lm.wf(), 0 <= pos <= lm.len, lm.bnd(pos), 0 <= line <= lm.last(), 0 <= col <= lm.end_col(line), lm.ds(line).len() >= 2, lm.last() >= 1,\n{ assert(false); }\n'),
+    'canaries': [
+        {'name': 'verus: pos_for_line_col compares with <= (column directly after a multi-byte character)', 'file': 'crates/glas/src/vfs.rs',
+         'old': '                if char_pos < col {\n                    col += diff as u32;', 'new': '                if char_pos <= col {\n                    col += diff as u32;'},
+        {'name': 'verus: line_col_for_pos takes characters at the offset itself', 'file': 'crates/glas/src/vfs.rs',
+         'old': '.take_while(|(char_pos, _)| *char_pos < col)', 'new': '.take_while(|(char_pos, _)| *char_pos <= col)'},
+        {'name': 'verus: end_col_for_line forgets the line feed', 'file': 'crates/glas/src/vfs.rs',
+         'old': 'self.line_starts[line as usize + 1] - self.line_starts[line as usize] - 1', 'new': 'self.line_starts[line as usize + 1] - self.line_starts[line as usize]'},
     ],
 }
 COPY_DIRS = ('crates/glas/src', 'crates/ide/src/ide')
